@@ -32,7 +32,61 @@ var c14Alphabet = []string{"a", "b", "Z", " ", "é", "€", "😀", "́", "ß", 
 	"ǅ", "Ⅷ", "Ⓐ", "ᾈ", "\uFFFD", "$", "1", "{", "}", ".", "*", "(", "[", "^", "+", "?", "|"}
 var c14Small = []string{"a", "b", "é", "€", "😀"}
 
-func c14GenStr(s Src, lo, hi int) string { return s.Str(c14Alphabet, lo, hi) }
+// c14LenChanging: every rune whose simple upper- or lower-case form has another UTF-8 length
+// (computed from the Unicode tables, e.g. ı→I, ſ→S, ɐ→Ɐ, Ⱥ→ⱥ, K→k)
+var c14LenChanging = func() []rune {
+	var out []rune
+	for r := rune(0x80); r <= unicode.MaxRune; r++ {
+		if !utf8.ValidRune(r) {
+			continue
+		}
+		if utf8.RuneLen(unicode.ToUpper(r)) != utf8.RuneLen(r) || utf8.RuneLen(unicode.ToLower(r)) != utf8.RuneLen(r) {
+			out = append(out, r)
+		}
+	}
+	return out
+}()
+
+// c14Rune: one character — mostly from the small alphabet (so that patterns recur), otherwise
+// any graphic, non-space rune of Unicode, drawn per UTF-8 shape (2 bytes; 3 bytes with lead
+// byte E0; other 3 bytes; 4 bytes) or from the runes whose case mapping changes the length
+func c14Rune(s Src) string {
+	if !s.Prob(22) {
+		return pickOne(s, c14Alphabet)
+	}
+	return c14RandRune(s)
+}
+
+func c14RandRune(s Src) string {
+	for try := 0; try < 20; try++ {
+		var r rune
+		switch s.Intn(5) {
+		case 0:
+			r = rune(s.Range(0x80, 0x7FF))
+		case 1:
+			r = rune(s.Range(0x800, 0xFFF))
+		case 2:
+			r = rune(s.Range(0x1000, 0xFFFF))
+		case 3:
+			r = rune(s.Range(0x10000, 0x10FFFF))
+		default:
+			r = pickOne(s, c14LenChanging)
+		}
+		if utf8.ValidRune(r) && unicode.IsGraphic(r) && !unicode.IsSpace(r) {
+			return string(r)
+		}
+	}
+	return "é"
+}
+
+func c14GenStr(s Src, lo, hi int) string {
+	n := s.Range(lo, hi)
+	var sb strings.Builder
+	for i := 0; i < n; i++ {
+		sb.WriteString(c14Rune(s))
+	}
+	return sb.String()
+}
 
 func c14Gen(s Src) c14Case {
 	c := c14Case{S: c14GenStr(s, 0, 12), Recv: pickOne(s, []string{"lit", "lit", "var", "fhir.string", "fhir.code", "fhir.markdown", "fhir.uri"}), ArgsV: s.Prob(40)}
@@ -57,7 +111,7 @@ func c14Gen(s Src) c14Case {
 			j := i + 1 + s.Intn(n-i)
 			c.T = string(rs[i:j])
 			if s.Prob(30) { // near miss
-				c.T += pickOne(s, c14Alphabet)
+				c.T += c14Rune(s)
 			}
 		}
 	default:
@@ -364,6 +418,10 @@ var c14NestAlphabet = []string{"a", "b", "Z", " ", "é", "€", "😀", "x", "ǅ
 func c14NestLit(s Src, n int) []rune {
 	var out []rune
 	for len(out) < n {
+		if s.Prob(15) {
+			out = append(out, []rune(c14RandRune(s))[0])
+			continue
+		}
 		out = append(out, []rune(pickOne(s, c14NestAlphabet))[0])
 	}
 	return out
